@@ -3,8 +3,10 @@
   Models: CV.GenFlat + CV.GenStruct (port of the generator for the declared fragment, stages 1 and 2),
   CV.Mos (6502 semantics), CV.CSem (the C reading used by the co-execution search).
 
-  THE FRAGMENT (`SInFragment`): programs over global `unsigned char` variables and constants built from
-      v = a | v = a ∘ b | v ∘= a | v++ | v--                      ∘ ∈ {+, −, &, |, ^}     (stage 1)
+  THE FRAGMENT (`SInFragment`): programs over global `unsigned char` variables, the register variables X and Y,
+  and constants, built from
+      lv = a | lv = a ∘ b | lv ∘= a | lv++ | lv--     lv ::= v | X | Y    a, b ::= n | v | X | Y    ∘ ∈ {+, −, &, |, ^}
+                                                                           (stage 1 without, stage 3 with X and Y)
       { S… } | if (c) S | if (c) S else S | while (c) S | do S while (c); | for (F; c; F) S   (stage 2)
       c ::= a ⋈ b | v | !v     ⋈ ∈ {==, !=, <, >=, >, <=}; no ordered comparison with literal 0, not two constants
   nested to any depth, any length.
@@ -21,6 +23,10 @@
      this check: function entry, csleep, inlined calls).
    * `struct_program_correct`: the same for a whole function body started at line 0, as a terminating
      run of the executable line machine `runG` (the machine the correspondence check executes).
+   * `reg_stmt_correct` (stage 3): the straight-line statements may use the register variables X and Y as
+     operands and targets; the specification `rspec` then includes the write of the scratch cell `cctmp`
+     the code performs; `struct_program_correct_pure` relates it to the plain reading `semPure` (no scratch
+     cell): equal X, Y and memory everywhere except `cctmp`, for programs that do not name `cctmp`.
    * `fresh_labels`: every label the generator defines is new (counter ranges), the fact behind the
      uniqueness of labels in emitted code (used again by C13).
    * `adc_after_clc`, `sbc_after_sec`, `negate_means_not`, `mirror_means_swap`: the arithmetic and
@@ -30,6 +36,7 @@
   signed types; optimisation levels above -O0 (C02's subject).
 -/
 import CV.Proofs.GenStructMain
+import CV.Proofs.GenStructPure
 set_option linter.unusedSimpArgs false
 set_option linter.constructorNameAsVariable false
 namespace CV.C01
@@ -86,6 +93,22 @@ theorem struct_program_correct (L : Layout) (st : SStmt) (fuel : Nat) (σ σ' : 
   simp only [List.nil_append, List.append_nil, List.length_nil, Nat.zero_add] at hs
   obtain ⟨n, hn⟩ := hs.runG rfl
   exact ⟨s', n, hn, hmem, hsp⟩
+
+/-- the same against the plain reading of the source (`semPure`: no scratch cell anywhere): for a program that
+    does not name the compiler's cell `cctmp`, the run ends with X, Y and every memory cell except `cctmp` as
+    the source prescribes -/
+theorem struct_program_correct_pure (L : Layout) (st : SStmt) (fuel : Nat) (σ σ' : SrcSt)
+    (hsem : semPure L fuel σ st = some σ') (hfr : SInFragment st = true) (hn : NoTmp L st.names)
+    (s : Cpu) (hm : srcOf s = σ) :
+    ∃ s' n, runG L (gen {} st).1 (gen {} st).1.length n 0 s = some s' ∧ EqOff L (srcOf s') σ' ∧ s'.sp = s.sp := by
+  have h := sem_pure L fuel σ σ st (EqOff.refl L σ) hn
+  rw [hsem] at h
+  cases hs : sem L fuel σ st with
+  | none => simp [hs, OutEq] at h
+  | some σ'' =>
+    rw [hs] at h
+    obtain ⟨s', n, hr, hsrc, hsp⟩ := struct_program_correct L st fuel σ σ'' hs hfr s hm
+    exact ⟨s', n, hr, by rw [hsrc]; exact h, hsp⟩
 
 /-- every label defined by generated code is new: allocated between the generator states before and
     after — so no label of a statement's code occurs in code generated earlier -/
